@@ -195,12 +195,12 @@ func (s *Signal) MaxUnsigned() uint64 {
 
 // MinSigned returns the minimum signed value representable by the signal.
 func (s *Signal) MinSigned() int64 {
-	return (2 << (s.Length - 1) / 2) * -1
+	return -1 << (s.Length - 1)
 }
 
 // MaxSigned returns the maximum signed value representable by the signal.
 func (s *Signal) MaxSigned() int64 {
-	return (2 << (s.Length - 1) / 2) - 1
+	return int64(uint64(1)<<(s.Length-1) - 1)
 }
 
 // MinSigned returns the minimum signed value representable by the signal.
